@@ -52,6 +52,39 @@ def api_table():
     return funcs, methods, newest
 
 
+LINE = re.compile(r"^(.*?\.go):(\d+):(\d+): (\w+): (.*)$")
+
+
+def end_to_end(ctx, gdir, funcs, methods):
+    """-go plumbing of the real binaries: several packages with version-gated constructs, targets 1.14 / 1.16 / 1.17."""
+    import shutil
+    d = os.path.join(ctx.scratch, "c15ws")
+    os.makedirs(d)
+    open(os.path.join(d, "go.mod"), "w").write("module example.com/c15\n\ngo 1.21\n")
+    src = open(os.path.join(gdir, "gated", "gated.go")).read()
+    for i in range(3):
+        os.makedirs(os.path.join(d, "g%d" % i))
+        open(os.path.join(d, "g%d" % i, "gated.go"), "w").write(src.replace("package gated", "package g%d" % i))
+    bins = {"cli": (ctx.build_repo_bin("cmd/go-critic"), ["check", "-enableAll"]), "analysis": (ctx.build_repo_bin("cmd/go-critic-analysis"), ["-enable-all"])}
+    n = 0
+    for fe, (b, pre) in bins.items():
+        for v in (14, 16, 17):
+            for rep in range(2 if fe == "analysis" else 1):
+                r = subprocess.run([b] + pre + ["-go=1.%d" % v, "./..."], cwd=d, capture_output=True, text=True, env=vlib.goenv(), timeout=600)
+                n += 1
+                lines_src = src.splitlines()
+                for l in (r.stderr + r.stdout).splitlines():
+                    m = LINE.match(l.strip())
+                    if not m:
+                        continue
+                    srcline = lines_src[int(m.group(2)) - 1] if int(m.group(2)) <= len(lines_src) else ""
+                    for name, intro in recommended(m.group(5), srcline, funcs, methods):
+                        if intro > v:
+                            ctx.fail("TooNew e2e %s %s" % (fe, m.group(4)), "%s -go=1.%d: %s recommends %s (introduced in go1.%d) in package %s: %s"
+                                     % (fe, v, m.group(4), name, intro, os.path.basename(os.path.dirname(m.group(1))), m.group(5)[:120]), {"frontend": fe, "version": v, "line": l})
+    return {"invocations": n}
+
+
 def recommended(text, src, funcs, methods):
     """(name, intro) for every std API named in the message but not on the flagged source line."""
     out = []
@@ -121,6 +154,21 @@ def run(ctx):
                     ctx.fail("TooNew %s %s" % (w["checker"], name), "target go%s: %s recommends %s (introduced in go1.%d): %s  [%s]"
                              % (vs, w["checker"], name, intro, w["text"][:160], w["pos"]), {"version": vs, "warning": w})
     key = lambda ws: sorted((w["checker"], w["pos"], w["text"]) for w in ws)
+    # the version may also be set on the context after the checkers were constructed: same diagnostics
+    outl = ctx.path("gate_late.json")
+    lv = [vstrs[0], "1.16", "1.17"]
+    ctx.run_vh(["gate", "-late", "-corpus", "dir:" + gdir, "-versions", ",".join(lv), "-out", outl], timeout=3000)
+    late = json.load(open(outl))
+    for vs in lv:
+        if vs not in gate:
+            continue
+        adv_only = [w for w in gate[vs] if "/corpus_adv/" in w["pos"]]
+        if key(late[vs]) != key(adv_only):
+            a, b = set(key(late[vs])), set(key(adv_only))
+            extra = sorted(a - b)[:3]
+            ctx.fail("VersionSetLateIgnored", "target go%s set on the context after the checkers were constructed: diagnostics differ from setting it before: %s"
+                     % (vs, extra or sorted(b - a)[:3]), {"version": vs})
+    e2e = end_to_end(ctx, gdir, funcs, methods)
     if key(gate["unset"]) != key(gate["1.99"]):
         a, b = set(key(gate["unset"])), set(key(gate["1.99"]))
         ctx.fail("UnsetNotNewest", "with no version configured the diagnostics differ from those of a far-future version: %s" % sorted(a ^ b)[:3], {})
@@ -133,7 +181,7 @@ def run(ctx):
     cov = {
         "states": st, "transitions": tr, "traces_validated_against_impl": evaluated + len(versions),
         "version_strings": len(strs), "targets": vstrs, "recommendations_checked": recs, "distinct_apis": len(api_seen),
-        "diagnostics_unset": len(gate["unset"]), "diagnostics_oldest": len(gate[vstrs[0]]), "design": design, "exhaustive": thorough,
+        "end_to_end": e2e, "diagnostics_unset": len(gate["unset"]), "diagnostics_oldest": len(gate[vstrs[0]]), "design": design, "exhaustive": thorough,
         "samples": [{"api": k, "introduced": "go1.%d" % v} for k, v in sorted(api_seen.items(), key=lambda kv: -kv[1])[:5]],
     }
     return ctx.finish("model_checking", cov, ["user rule files (the dynamic ruleguard checker does not forward the version) are outside the claim",
